@@ -12,4 +12,25 @@ TEXT = {
         "note": COMMON_NOTE + "Names longer than 253 octets in dotted form are rejected by the decoder (RFC 1035 2.3.4, after the C09 fix), so the round trip is stated for names within that limit.",
         "technique": "Coq proof (induction over fuel/derivations) on a hand-written model + differential correspondence with the Go code",
     },
+    "C01": {
+        "text": "Theorem C01_roundtrip: for every packet of the encodable domain (option values of ANY length, any option set) enc4 succeeds and dec4 of the "
+                "result has identical header fields and, under every code, the identical value; the >255 split is proved to concatenate back (chunks lemma). "
+                "enc4/dec4 are compared byte-for-byte / field-for-field with ToBytes/FromBytes on boundary-length and random packets; the direct round-trip oracle runs on the real code.",
+        "note": COMMON_NOTE,
+        "technique": "Coq proof (round-trip theorem over all packets) on a hand-written model + differential correspondence with the Go code",
+    },
+    "C04": {
+        "text": "Theorem C04_exact: dec4 b = Ok p <-> layout4 b p for all byte strings, where layout4 is RFC 2131 figure 1 + the RFC 2132/3396 option grammar as a relation; "
+                "C04_total: every other input is an error (no panic, no non-termination). dec4 is compared with dhcpv4.FromBytes (verdict and every public field) on exhaustive "
+                "small-alphabet option areas, all truncations, length/cookie corruptions and random packets; an independent Go reference decoder is the direct oracle.",
+        "note": COMMON_NOTE,
+        "technique": "Coq proof (decoder = declarative layout, iff) on a hand-written model + differential correspondence with the Go code",
+    },
+    "C07": {
+        "text": "Theorems on enc4: length >= 300; header/cookie/instances in ascending code order with 82 last/one End/padding; instances <= 255 octets; the layout relation "
+                "(independent RFC reader) recovers the packet; equal contents encode identically for every order of the association list and every program of updates/deletions "
+                "(no bound of 6). The real encoder is compared with enc4 byte for byte and checked by an independent wire validator over all 720 insertion orders of 6-option sets.",
+        "note": COMMON_NOTE,
+        "technique": "Coq proof (sort uniqueness, permutation invariance) on a hand-written model + differential correspondence with the Go code",
+    },
 }
